@@ -13,50 +13,38 @@ Local Open Scope R_scope.
 (* ---------------- tanh change of variables ---------------- *)
 (* tanh is differentiable with derivative 1 - tanh^2, artanh is its inverse on (-1,1), and tanh is an
    increasing bijection: P(tanh U <= a) = P(U <= artanh a) *)
-Theorem C14_tanh_bijection :
+Theorem C14_tanh_change_of_variables :
   (forall u, is_derive tanh u (1 - (tanh u) ^ 2)) /\
   (forall u, artanh (tanh u) = u) /\
   (forall a, -1 < a < 1 -> tanh (artanh a) = a) /\
-  (forall u a, -1 < a < 1 -> (tanh u <= a <-> u <= artanh a)).
-Proof. exact (conj tanh_derive (conj artanh_tanh (conj tanh_artanh tanh_le_iff))). Qed.
-Print Assumptions C14_tanh_bijection.
+  (forall u a, -1 < a < 1 -> (tanh u <= a <-> u <= artanh a)) /\
+  (* so the CDF of the action is F_U o artanh; its derivative (the density in action space) is
+     f_U(artanh a) / (1 - a^2) *)
+  (forall (F f : R -> R) a, (forall u, is_derive F u (f u)) -> -1 < a < 1 ->
+     is_derive (fun y => F (artanh y)) a (f (artanh a) / (1 - a ^ 2))).
+Proof. exact (conj tanh_derive (conj artanh_tanh (conj tanh_artanh (conj tanh_le_iff squash_change_of_variables)))). Qed.
+Print Assumptions C14_tanh_change_of_variables.
 
-(* so the CDF of the action is F_U o artanh; its derivative (the density in action space) is
-   f_U(artanh a) / (1 - a^2) *)
-Theorem C14_squash_change_of_variables : forall (F f : R -> R) a,
-  (forall u, is_derive F u (f u)) -> -1 < a < 1 ->
-  is_derive (fun y => F (artanh y)) a (f (artanh a) / (1 - a ^ 2)).
-Proof. exact squash_change_of_variables. Qed.
-Print Assumptions C14_squash_change_of_variables.
-
-(* with epsilon = 0 the code's log_prob is the log of the product over dimensions of that density *)
-Theorem C14_squashed_logprob_is_log_density : forall feps p acts,
-  length acts = length p ->
-  List.Forall (fun a => -1 + feps <= a <= 1 - feps /\ -1 < a < 1) acts ->
-  squashed_logprob feps 0 p acts
-  = sumR (map2 (fun ml a => ln (squashed_pdf (fst ml) (exp (snd ml)) a)) p acts).
-Proof. exact squashed_logprob_exact. Qed.
-Print Assumptions C14_squashed_logprob_is_log_density.
+(* with epsilon = 0 the code's log_prob is the log of the product over dimensions of that density;
+   the epsilon inside the logarithm lowers it by at most sum eps / (1 - a^2);
+   the sample-and-log-prob helper (cached pre-squash sample) = log_prob(sample) while the clamp is inactive *)
+Theorem C14_squashed_logprob :
+  (forall feps p acts, length acts = length p ->
+     List.Forall (fun a => -1 + feps <= a <= 1 - feps /\ -1 < a < 1) acts ->
+     squashed_logprob feps 0 p acts
+     = sumR (map2 (fun ml a => ln (squashed_pdf (fst ml) (exp (snd ml)) a)) p acts)) /\
+  (forall eps p gacts acts, 0 <= eps -> List.Forall (fun a => -1 < a < 1) acts ->
+     0 <= squashed_logprob_g 0 p acts gacts - squashed_logprob_g eps p acts gacts
+       <= sumR (map (fun a => eps / (1 - a ^ 2)) acts)) /\
+  (forall feps eps p us, List.Forall (fun u => -1 + feps <= tanh u <= 1 - feps) us ->
+     squashed_logprob feps eps p (map tanh us) = squashed_logprob_g eps p (map tanh us) us).
+Proof. exact (conj squashed_logprob_exact (conj squashed_epsilon_gap squashed_cached_agrees)). Qed.
+Print Assumptions C14_squashed_logprob.
 
 Example C14_squashed_hyp_ok :
   length [1/2; -9/10] = length [(0, 0); (1, -1)] /\
   List.Forall (fun a => -1 + 1/1000 <= a <= 1 - 1/1000 /\ -1 < a < 1) [1/2; -9/10].
 Proof. split; [reflexivity|]. repeat constructor; Lra.lra. Qed.
-
-(* the epsilon inside the logarithm lowers the log-probability by at most sum eps / (1 - a^2) *)
-Theorem C14_epsilon_gap : forall eps p gacts acts, 0 <= eps ->
-  List.Forall (fun a => -1 < a < 1) acts ->
-  0 <= squashed_logprob_g 0 p acts gacts - squashed_logprob_g eps p acts gacts
-    <= sumR (map (fun a => eps / (1 - a ^ 2)) acts).
-Proof. exact squashed_epsilon_gap. Qed.
-Print Assumptions C14_epsilon_gap.
-
-(* sample-and-log-prob helper (cached pre-squash sample) = log_prob(sample) while the clamp is inactive *)
-Theorem C14_squashed_cached_agrees : forall feps eps p us,
-  List.Forall (fun u => -1 + feps <= tanh u <= 1 - feps) us ->
-  squashed_logprob feps eps p (map tanh us) = squashed_logprob_g eps p (map tanh us) us.
-Proof. exact squashed_cached_agrees. Qed.
-Print Assumptions C14_squashed_cached_agrees.
 
 Example C14_cached_hyp_ok : List.Forall (fun u => -1 + 0 <= tanh u <= 1 - 0) [0; 3; -20].
 Proof. repeat constructor; pose proof (tanh_range 0); pose proof (tanh_range 3); pose proof (tanh_range (-20)); Lra.lra. Qed.
@@ -131,18 +119,16 @@ Qed.
 Print Assumptions C14_entropy.
 
 (* ---------------- gSDE ---------------- *)
-Theorem C14_gsde_positive :
+(* expln > 0, variance >= 0, std > 0; reparametrisation: the log-density of loc + e * scale depends on
+   the draw only through e^2 *)
+Theorem C14_gsde_positive_and_rsample :
   (forall eps ls, 0 <= eps -> 0 < expln eps ls) /\
   (forall x c, 0 <= gsde_variance x c) /\
-  (forall eps x c, 0 < eps -> 0 < gsde_std eps x c).
-Proof. exact (conj expln_positive (conj gsde_variance_nonneg gsde_std_positive)). Qed.
-Print Assumptions C14_gsde_positive.
-
-(* reparametrisation: the log-density of loc + e * scale depends on the draw only through e^2 *)
-Theorem C14_rsample_logpdf : forall mu sigma e, sigma <> 0 ->
-  normal_logpdf mu sigma (mu + e * sigma) = - e ^ 2 / 2 - ln sigma - ln (sqrt (2 * PI)).
-Proof. exact normal_logpdf_rsample. Qed.
-Print Assumptions C14_rsample_logpdf.
+  (forall eps x c, 0 < eps -> 0 < gsde_std eps x c) /\
+  (forall mu sigma e, sigma <> 0 ->
+     normal_logpdf mu sigma (mu + e * sigma) = - e ^ 2 / 2 - ln sigma - ln (sqrt (2 * PI))).
+Proof. exact (conj expln_positive (conj gsde_variance_nonneg (conj gsde_std_positive normal_logpdf_rsample))). Qed.
+Print Assumptions C14_gsde_positive_and_rsample.
 
 (* ---------------- regenerated fragments of distributions.py ---------------- *)
 Theorem C14_fragments :
